@@ -178,6 +178,23 @@ pub fn run(args: &Args, out: &mut Out) {
                 if len % 2 == 1 { odd += 1; }
                 cksum_case(kind, &d, &src, &dst, out);
             }
+            // all-ones contents with a few small words: whatever the width of the accumulator (16, 32 or 64 bits at a time), k words of
+            // all ones plus a remainder below k make the folded halves carry once more - a fold done only once loses that carry
+            if len >= 4 && (len % 8 == 0 || len < 128) {
+                let alen = if kind.ends_with('6') { 16 } else { 4 };
+                for variant in 0..2 {
+                    let mut d = vec![0xFFu8; len];
+                    let nsmall = 1 + rng.below(3) as usize;
+                    for _ in 0..nsmall {
+                        let w = rng.below((len / 2) as u64) as usize;
+                        d[2 * w] = 0;
+                        d[2 * w + 1] = rng.below(12) as u8;
+                    }
+                    let (src, dst) = if variant == 0 { (vec![0xFFu8; alen], vec![0xFFu8; alen]) } else { (rng.bytes(alen), rng.bytes(alen)) };
+                    cksum_case(kind, &d, &src, &dst, out);
+                    carry += 1;
+                }
+            }
             // all-zero contents (also the checksum word holding a stale value) and all-zero addresses: the sum of everything but the
             // checksum word is zero - the negative-zero corner of one's-complement arithmetic
             if len % 4 == 0 || len < 64 {
